@@ -219,7 +219,16 @@ def apply_callback(ex, ev, ft: TFun, node):
     if ft.pure:
         uf = ufun(ft.fname, [sort_of(t) for t in ft.args], sort_of(ft.ret))
         return V(ft.ret, uf(*args))
-    return ex.new_sym(ft.ret, f"cb_{ft.fname}", ev.st)
+    r = ex.new_sym(ft.ret, f"cb_{ft.fname}", ev.st)
+    post = ex.reg.funs.get(ft.fname, {}).get("post")
+    if post:
+        bound = dict(ev.bound)
+        for i, (z, t) in enumerate(zip(args, ft.args)):
+            bound[f"a{i}"] = V(t, z)
+        ex.name_values(ev.st)
+        sub = Eval(ex, ev.st, True, bound, ev.old, r)
+        ev.st.pc.append(sub.boolean(ex.parse_clause(post)))
+    return r
 
 
 def construct(ex, ev, node, target_name):
@@ -389,6 +398,25 @@ def builtin_call(ex, ev: Eval, node, fname):
             for x in a[1:]:
                 ev.expr(x)
             return ex.new_sym(h.t, "heap", ev.st)
+        if isinstance(h.t, TList) and fname == "heappush" and len(a) == 2 and isinstance(a[0], (ast.Name, ast.Attribute)):
+            x = coerce_to(ev.expr(a[1]), h.t.elem)
+            ex.assign(ev.st, a[0], mk_list(h.t, list_len(h) + 1, z3.Store(list_arr(h), list_len(h), x.z)), ev)
+            return V(NONE, z3.BoolVal(True))
+        if isinstance(h.t, TList) and fname == "heappop" and len(a) == 1 and isinstance(a[0], (ast.Name, ast.Attribute)):
+            # over-approximation: SOME element is removed (minimality is not used), the rest are old elements
+            ev.ob("heap-nonempty", list_len(h) > 0, node)
+            i = ex.new_sym(INT, "popidx", ev.st)
+            ev.st.pc.append(z3.And(0 <= i.z, i.z < list_len(h)))
+            new = ex.new_sym(h.t, "heap_rest", ev.st)
+            src = fresh(TMap(INT, INT), "heap_src")
+            j = z3.Int("j!heap")
+            ev.st.pc.append(list_len(new) == list_len(h) - 1)
+            ev.st.pc.append(z3.ForAll([j], z3.Implies(z3.And(0 <= j, j < list_len(new)),
+                                                      z3.And(0 <= z3.Select(src.z, j), z3.Select(src.z, j) < list_len(h),
+                                                             z3.Select(list_arr(new), j) == z3.Select(list_arr(h), z3.Select(src.z, j)))),
+                                      patterns=[z3.Select(list_arr(new), j)]))
+            ex.assign(ev.st, a[0], new, ev)
+            return V(h.t.elem, z3.Select(list_arr(h), i.z))
         raise Unsupported("heap operation on a modelled list")
     if fname == "callable" and len(a) == 1:
         return ex.new_sym(BOOL, "callable", ev.st)
